@@ -25,6 +25,7 @@ func runC19(c *Ctx) {
 	}
 	c.NotDec = []string{"that evidence produced by one node is accepted by all others (timestamps are computed from local commits — value-level)", "expiry over histories", "behaviour across restarts"}
 	c.Floors["G"] = 30
+	c19Round3(c)
 
 	// ---- VerifyDuplicateVote ------------------------------------------------------------------------
 	if fn := c.Fn("types/evidence", "", "VerifyDuplicateVote"); fn != nil {
